@@ -7,8 +7,11 @@ import (
 	"flag"
 	"fmt"
 	"os"
+	"time"
 
 	"verif/harness/adjdrv"
+	"verif/harness/isolate"
+	"verif/harness/muxdrv"
 	"verif/harness/ocidrv"
 	"verif/harness/relaydrv"
 	"verif/harness/syncdrv"
@@ -135,6 +138,37 @@ func main() {
 			fail(err)
 		}
 		if err := syncdrv.RunChild(*n, sc, *out); err != nil {
+			fail(err)
+		}
+	case "mux":
+		fs := flag.NewFlagSet(mod, flag.ExitOnError)
+		in := fs.String("in", "", "scenarios")
+		out := fs.String("out", "", "trace file")
+		seed := fs.Int64("seed", 1, "seed")
+		fs.Parse(args)
+		n, err := isolate.Run("mux-child", *in, *out, []string{"-seed", fmt.Sprint(*seed)}, 15*time.Second)
+		if err != nil {
+			fail(err)
+		}
+		fmt.Printf("{\"events\":%d}\n", n)
+	case "mux-child":
+		fs := flag.NewFlagSet(mod, flag.ExitOnError)
+		in := fs.String("in", "", "scenarios")
+		out := fs.String("out", "", "trace file")
+		seed := fs.Int64("seed", 1, "seed")
+		skip := fs.Int("skip", 0, "scenarios to skip")
+		fs.Parse(args)
+		if _, err := muxdrv.Run(*in, *out, *seed, *skip); err != nil {
+			fail(err)
+		}
+	case "mux-gen":
+		fs := flag.NewFlagSet(mod, flag.ExitOnError)
+		out := fs.String("out", "", "scenario file")
+		n := fs.Int("n", 100, "number of scenarios")
+		seed := fs.Int64("seed", 1, "seed")
+		big := fs.Bool("big", false, "include multi-megabyte boundary sizes")
+		fs.Parse(args)
+		if err := muxdrv.Generate(*out, *n, *seed, *big); err != nil {
 			fail(err)
 		}
 	default:
